@@ -6,10 +6,11 @@ args = sys.argv[1:]
 rnd2 = "--round2" in args
 rnd3 = "--round3" in args
 rnd4 = "--round4" in args
-rnd5 = "--round5" in args
-args = [a for a in args if a not in ("--round2", "--round3", "--round4", "--round5")]
+rnd5 = "--round5" in args or "--round6" in args
+rnd6 = "--round6" in args
+args = [a for a in args if a not in ("--round2", "--round3", "--round4", "--round5", "--round6")]
 for pid in args:
-    src = f"/tmp/mut5/{pid}-out" if rnd5 else f"/tmp/mut4/{pid}-out" if rnd4 else f"/tmp/mut3/{pid}-out" if rnd3 else (f"/tmp/mut2/{pid}-out" if rnd2 else f"/tmp/mut/{pid}-out")
+    src = f"/tmp/mut6/{pid}-out" if rnd6 else f"/tmp/mut5/{pid}-out" if rnd5 else f"/tmp/mut4/{pid}-out" if rnd4 else f"/tmp/mut3/{pid}-out" if rnd3 else (f"/tmp/mut2/{pid}-out" if rnd2 else f"/tmp/mut/{pid}-out")
     for k in (1, 2, 3, 4):
         if not os.path.exists(f"{src}/m{k}.diff"):
             continue
